@@ -9,7 +9,7 @@ trap 'rm -rf "$D"' EXIT
 rsync -a --exclude .git "${SEED_SRC:-/repo}/" "$D/repo/"
 ( cd "$D/repo" && patch -p1 -s < /verif/seeded/$ID/patch.diff ) || { echo "PATCH FAILED"; exit 3; }
 cd /verif
-VERIF_REPO="$D/repo" timeout 1200 "${VCGO_BIN:-bin/vcgo}" check -p "$PROP" > "$D/out.log" 2>&1; RC=$?
+VERIF_REPO="$D/repo" timeout 2700 "${VCGO_BIN:-bin/vcgo}" check -p "$PROP" > "$D/out.log" 2>&1; RC=$?
 grep -h "VIOLATION\|UNDECIDED\|KNOWN" "$D/out.log" | head -6
 tail -1 "$D/out.log"
 echo "seed=$ID prop=$PROP check_exit=$RC"
